@@ -165,7 +165,11 @@ func (v Value) IsNaN() bool {
 		return false
 	}
 
-	return math.IsNaN(v.float64())
+	result := false
+	catchPanic(func() { //nolint:errcheck, gosec
+		result = math.IsNaN(v.float64())
+	})
+	return result
 }
 
 // IsString will return true if value is a string (primitive).
@@ -609,7 +613,11 @@ func strictEqualityComparison(x Value, y Value) bool {
 //	Array       -> []interface{}
 //	Object      -> map[string]interface{}
 func (v Value) Export() (interface{}, error) {
-	return v.export(), nil
+	var result interface{}
+	err := catchPanic(func() {
+		result = v.export()
+	})
+	return result, err
 }
 
 func (v Value) export() interface{} {
